@@ -146,6 +146,52 @@ where
     inflight: Inflight<E, S, I>,
 }
 
+/// What [`InflightManager::take`] removed from the table.
+///
+/// Besides the notifiers it owns the key clone (and a possibly donated fetch closure) of the removed
+/// entry. Their destructors are user code, so the value must be dropped out of any lock critical section.
+pub struct Taken<E, S, I>
+where
+    E: Eviction,
+    S: HashBuilder,
+    I: Indexer<Eviction = E>,
+{
+    pub notifiers: Vec<Notifier<Option<RawCacheEntry<E, S, I>>>>,
+    _key: Option<E::Key>,
+    _f: Option<RequiredFetchBuilderErased<E::Key, E::Value, E::Properties>>,
+}
+
+impl<E, S, I> Default for Taken<E, S, I>
+where
+    E: Eviction,
+    S: HashBuilder,
+    I: Indexer<Eviction = E>,
+{
+    fn default() -> Self {
+        Self {
+            notifiers: vec![],
+            _key: None,
+            _f: None,
+        }
+    }
+}
+
+impl<E, S, I> Taken<E, S, I>
+where
+    E: Eviction,
+    S: HashBuilder,
+    I: Indexer<Eviction = E>,
+{
+    fn new(entry: InflightEntry<E, S, I>) -> Self {
+        entry.inflight.close.store(true, Ordering::Relaxed);
+        Self {
+            notifiers: entry.inflight.notifiers,
+            _key: Some(entry.key),
+            _f: entry.inflight.f,
+        }
+    }
+}
+
 pub struct InflightManager<E, S, I>
 where
     E: Eviction,
@@ -230,28 +276,19 @@ where
         }
     }
 
-    #[expect(clippy::type_complexity)]
-    pub fn take<Q>(
-        &mut self,
-        hash: u64,
-        key: &Q,
-        id: Option<usize>,
-    ) -> Option<Vec<Notifier<Option<RawCacheEntry<E, S, I>>>>>
+    pub fn take<Q>(&mut self, hash: u64, key: &Q, id: Option<usize>) -> Option<Taken<E, S, I>>
     where
         Q: Hash + Equivalent<E::Key> + ?Sized,
     {
         match self.inflights.entry(hash, |e| key.equivalent(&e.key), |e| e.hash) {
             Entry::Occupied(o) => match id {
-                Some(id) if id == o.get().inflight.id => Some(o.remove().0.inflight),
+                Some(id) if id == o.get().inflight.id => Some(o.remove().0),
                 Some(_) => None,
-                None => Some(o.remove().0.inflight),
+                None => Some(o.remove().0),
             },
             Entry::Vacant(..) => None,
         }
-        .map(|inflight| {
-            inflight.close.store(true, Ordering::Relaxed);
-            inflight.notifiers
-        })
+        .map(Taken::new)
     }
 
     pub fn fetch_or_take<Q, C>(&mut self, hash: u64, key: &Q, id: usize) -> Option<FetchOrTake<E, S, I, C>>
@@ -268,12 +305,7 @@ where
                 let f = o.get_mut().inflight.f.take();
                 match f.map(unerase_required_fetch_builder) {
                     Some(f) => Some(FetchOrTake::Fetch(f)),
-                    None => {
-                        let inflight = o.remove().0.inflight;
-                        inflight.close.store(true, Ordering::Relaxed);
-                        let notifiers = inflight.notifiers;
-                        Some(FetchOrTake::Notifiers(notifiers))
-                    }
+                    None => Some(FetchOrTake::Notifiers(Taken::new(o.remove().0))),
                 }
             }
         }
@@ -304,5 +336,5 @@ where
     I: Indexer<Eviction = E>,
 {
     Fetch(RequiredFetchBuilder<E::Key, E::Value, E::Properties, C>),
-    Notifiers(Vec<Notifier<Option<RawCacheEntry<E, S, I>>>>),
+    Notifiers(Taken<E, S, I>),
 }
